@@ -109,6 +109,28 @@ def run(ctx):
     for bi, val in nd_defs:
         found, vals = arm_value(v6, is_nh, bi)
         rep.check(r1, vals == [58], 'layer_3::ipv6::repl:dst-substitution', 'dst reassigned to %s on arm %s (allowed: ICMPv6 only)' % (short(val)[:80], vals), v6.loc(bi))
+    # whenever icmpv6::repl handed back an address (an answered solicitation), that address becomes the source
+    from rules.c02 import track as _track
+    nd_blocks = {bi for bi, _ in nd_defs}
+    icmp_calls = {b for b, t in v6.calls(r'^layer_4::icmpv6::repl$')}
+
+    def _flags_on_edge(bi, s, efs, flags):
+        return flags | {'nd'} if s in nd_blocks else flags
+
+    def _on_call(bi, t, flags):
+        return flags | {'icmp'} if bi in icmp_calls else flags
+    st6, _ = fact_sim(v6, lambda k: _track(k) or 'icmpv6::repl' in str(k) or 'repl(' in short(k), on_call=_on_call, on_edge_flags=_flags_on_edge)
+    for bi, t in ssb:
+        sts = st6.get(bi, set())
+        bad = []
+        for (flags, facts) in sts:
+            if 'icmp' not in flags or 'nd' in flags:
+                continue
+            none_known = any(isinstance(k, tuple) and k[0] == 'discr' and isinstance(k[1], tuple) and k[1][0] == 'field' and k[1][2] == '1' and
+                             ((rel == '!=' and c == 1) or (rel == '==' and c == 0)) for (k, rel, c) in facts)
+            if not none_known:
+                bad.append(sorted((short(k)[:50], rel, c) for (k, rel, c) in facts if 'repl' in short(k)))
+        rep.check(r1, bool(sts) and not bad, 'layer_3::ipv6::repl:nd-target-always-used', 'on every ICMPv6 path the source is the address returned by icmpv6::repl unless it returned none: %d of %d path states violate this' % (len(bad), len(sts)), v6.loc(bi))
     # --- TCP / UDP ports
     for fid, cls in [('layer_4::tcp::repl', 'TcpPacket'), ('layer_4::udp::repl', 'UdpPacket')]:
         f = F.fn(fid)
